@@ -309,5 +309,10 @@ Emit == PrintT(<<"EMIT", ToJson(Rec)>>)
 \* positionally in the declared order of the provides tuple)
 EmitMulti == (Allowed = {"ok"} /\ P # {} /\ \E v1, v2 \in V : v1 # v2 /\ v1.m = v2.m /\ v1.ph = v2.ph /\ Exists(v1.m, v1.ph))
                 => PrintT(<<"EMIT", ToJson(Rec)>>)
+\* rejected configurations in which ONE phase of the main route misses SEVERAL names (the error report lists them all;
+\* it must still be a NameError)
+MissingIn(R, ph) == UNION {ReqOf(t[3]) \ Avail(R, t[1], t[2]) : t \in {x \in ExistingChain(R) : x[2] = ph}}
+EmitUnres == (Allowed = {"NameError"} /\ ~Conflict /\ \E ph \in 1..3 : Cardinality(MissingIn("main", ph)) >= 2)
+                => PrintT(<<"EMIT", ToJson(Rec)>>)
 EmitOk == (Allowed = {"ok"} /\ P # {} /\ (V # {} \/ ~NoSrc)) => PrintT(<<"EMIT", ToJson(Rec)>>)
 =============================================================================
